@@ -118,7 +118,7 @@ func init() {
 				emit(Case{Line: fmt.Sprintf("iso fromgo %d", rng.Int63n(1<<40)-(1<<39)), Kind: "fromgo-random"})
 			}
 		},
-		Impl: isoImpl,
+		Impl:    isoImpl,
 		NoModel: func(line string) bool { return strings.HasPrefix(line, "iso str") },
 		// the model answers with the set of possible results; every observed result must be possible
 		Agree: func(m, i string) bool {
@@ -184,10 +184,10 @@ func init() {
 			}
 			return ""
 		},
-		FindingKey: func(line, out, clause string) string { return line },
-		Nontrivial: func(line, out string) bool { return out != "err" },
-		Rule:       "sql levels -8..64 plus 40 random 40-bit values through ASEIsolationLevelFromGo (50 evaluations each); ASE levels -8..16 through ToGo and String (400 evaluations each in-process, plus 3 child processes x 200 for the levels marked procs); non-trivial = answer other than the error",
-		NoShrink:   true,
+		FindingKey:  func(line, out, clause string) string { return line },
+		Nontrivial:  func(line, out string) bool { return out != "err" },
+		Rule:        "sql levels -8..64 plus 40 random 40-bit values through ASEIsolationLevelFromGo (50 evaluations each); ASE levels -8..16 through ToGo and String (400 evaluations each in-process, plus 3 child processes x 200 for the levels marked procs); non-trivial = answer other than the error",
+		NoShrink:    true,
 		Assumptions: []string{"Go map iteration order is unspecified (modelled as: any entry may be visited first)"},
 	})
 }
